@@ -133,19 +133,40 @@ func (m *monState) walk(evs []Ev, inFailed bool) {
 				m.fail(name+":status-word-not-boolean", "status word "+ev.Status)
 			}
 		case "call":
-			e, p := es[ev.pre], es[ev.post]
-			if !ev.OK {
+			// a frame of any kind (CALL, CALLCODE, DELEGATECALL, STATICCALL, CREATE, CREATE2)
+			via := ev.Via
+			if via == "" {
+				via = "call"
+			}
+			if ev.post >= 0 {
+				e, p := es[ev.pre], es[ev.post]
 				same := e.cacheLen == p.cacheLen
-				for i := range e.bals {
-					if e.bals[i].Cmp(p.bals[i]) != 0 {
+				for i := 0; i < len(e.bals) || i < len(p.bals); i++ {
+					if balOf(&e, i).Cmp(balOf(&p, i)) != 0 {
 						same = false
 					}
 				}
-				if !same {
-					m.fail("call:failed-frame-left-trace", fmt.Sprintf("CALL at pc %d depth %d failed but balances / ETX cache differ from the state at the call (cache %d -> %d)", e.pc, e.depth, e.cacheLen, p.cacheLen))
+				if ev.Kept {
+					// finding: a constructor that cannot pay for the deposit of its code fails without being reverted
+					if !same {
+						m.fail("create:code-store-out-of-gas:failed-frame-kept", fmt.Sprintf("%s at pc %d depth %d pushed 0 (the constructor returned code it could not pay for) but its effects were kept: balances / ETX cache differ from the state at the opcode (cache %d -> %d)", via, e.pc, e.depth, e.cacheLen, p.cacheLen))
+					}
+				} else if !ev.OK && !same {
+					// signature kept for plain CALL frames; one signature per other frame kind
+					sig := "call:failed-frame-left-trace"
+					if via != "call" {
+						sig = via + ":failed-frame-left-trace"
+					}
+					m.fail(sig, fmt.Sprintf("%s at pc %d depth %d failed but balances / ETX cache differ from the state at the call (cache %d -> %d)", via, e.pc, e.depth, e.cacheLen, p.cacheLen))
+				}
+				if via == "staticcall" && !same {
+					m.fail("staticcall:frame-changed-state", fmt.Sprintf("STATICCALL at pc %d depth %d returned with balances / ETX cache changed (cache %d -> %d)", e.pc, e.depth, e.cacheLen, p.cacheLen))
+				}
+				if p.cacheLen < e.cacheLen {
+					m.fail(via+":frame-shrank-etx-cache", fmt.Sprintf("%s at pc %d depth %d returned with a shorter ETX cache (%d -> %d): ETXs of the calling frame were dropped", via, e.pc, e.depth, e.cacheLen, p.cacheLen))
 				}
 			}
-			m.walk(ev.Sub, inFailed || !ev.OK)
+			m.walk(ev.Sub, inFailed || !(ev.OK || ev.Kept))
 		}
 	}
 }
@@ -161,7 +182,7 @@ func monitors(c *Case, info *runInfo, rep *hlib.Report) {
 	}
 	sumInit, sumFinal := new(big.Int), new(big.Int)
 	changed := false
-	for i := range c.Accts {
+	for i := range c.Bals { // the accounts of the case and the contracts created during the run
 		sumInit.Add(sumInit, info.init[i])
 		sumFinal.Add(sumFinal, bi(c.Bals[i]))
 		if info.init[i].Cmp(bi(c.Bals[i])) != 0 {
@@ -229,11 +250,21 @@ func classify(c *Case, rep *hlib.Report) {
 		for _, ev := range evs {
 			switch ev.Kind {
 			case "call":
-				k := "call:failed"
+				via := ev.Via
+				if via == "" {
+					via = "call"
+				}
+				k := via + ":failed"
 				if ev.OK {
-					k = "call:ok"
+					k = via + ":ok"
+				} else if ev.Kept {
+					k = via + ":failed-but-kept"
 				}
 				rep.Count(k)
+				if countSends(ev.Sub) > 0 {
+					// the shape the blind changes needed: a frame that recorded ETXs and was then reverted / kept
+					rep.Count(k + ":with-recorded-etx")
+				}
 				if d+1 <= 4 {
 					rep.Count(fmt.Sprintf("call-depth:%d", d+1))
 				} else {
@@ -270,4 +301,17 @@ func classify(c *Case, rep *hlib.Report) {
 	if ops > 0 {
 		rep.Nontrivial(fp)
 	}
+}
+
+// number of send operations in a sub-trace that recorded an ETX
+func countSends(evs []Ev) int {
+	n := 0
+	for _, ev := range evs {
+		if ev.Kind == "call" {
+			n += countSends(ev.Sub)
+		} else if ev.Emit != nil {
+			n++
+		}
+	}
+	return n
 }
